@@ -11,6 +11,7 @@ import z3
 
 from .values import *  # noqa
 from .core import *  # noqa
+from .core import PathEnd
 from . import extract, spec
 from .interp import Interp
 
@@ -146,6 +147,7 @@ class Verifier:
         I.layouts = spec.LAYOUTS
         I.contracts = spec.REGISTRY
         I.modular = set(spec.MODULAR) - {self.current}
+        I.current_contract = spec.REGISTRY.get(self.current)
         env = {}
         for k, v in self.spec_env_raw.items():
             env[k] = v
@@ -244,10 +246,12 @@ class Verifier:
             if r == z3.unsat:
                 rep.vacuous = True
                 return
+        if C.decreases:
+            I.entry_measure = I.int_of(I.spec_eval(ast.parse(C.decreases, mode='eval').body))
         # snapshot for old()
         I.old_heap = I.heap.snapshot()
         I.old_locals = dict(sf.locals)
-        I.old_ghost = {'g_enc': I.g_enc, 'g_dec': I.g_dec}
+        I.old_ghost = {'g_enc': I.g_enc, 'g_dec': I.g_dec, 'g_nframes': I.g_nframes, 'g_ngoaway': I.g_ngoaway}
         inputs = dict(sf.locals)
         outcome = None
         try:
@@ -261,6 +265,8 @@ class Verifier:
             outcome = ('return', result)
         except PyRaise as pr:
             outcome = ('raise', pr)
+        except PathEnd:
+            outcome = ('pathend', None)
         rep.paths += 1
         path = list(I.ctl.labels)
         props = C.props
@@ -278,6 +284,8 @@ class Verifier:
         for ob in I.callsite_obligations:
             add('requires@callsite', ob[0], ob[1], ob[3], ob[2])
 
+        if outcome[0] == 'pathend':
+            return
         if outcome[0] == 'return':
             sf.locals['result'] = outcome[1]
             self.apply_ghost_updates(I, C, sf)
@@ -310,6 +318,7 @@ class Verifier:
                 if pr.origin else {'exception': cname}
             matched = None
             alts = []
+            sf.locals['exc'] = pr.exc
             for rc in C.raises:
                 if self.exc_is(I, pr.exc, rc.exc):
                     if matched is None:
